@@ -89,3 +89,11 @@ Proof.
     cbn [nth laue_m1 s_center sector_m1 r12 rd_exact]. rewrite ract_e, ract_i. cbv [vneg vdot]. rsimpl. lra.
   - rewrite ract_i. cbv [vneg]. rsimpl. intro E. inversion E. lra.
 Qed.
+
+Example range_nonvacuous : in01 (1 / 3) /\ in01 (3 / 4) /\ rgb01 (hsv_to_rgb ROps (1 / 3) (3 / 4) 1).
+Proof.
+  assert (A : in01 (1 / 3)) by (unfold in01; lra).
+  assert (B : in01 (3 / 4)) by (unfold in01; lra).
+  assert (C : in01 1) by (unfold in01; lra).
+  exact (conj A (conj B (hsv_to_rgb_range _ _ _ A B C))).
+Qed.
